@@ -641,7 +641,8 @@ def explain_diff(a, b):
     return first_diff_plain(a, b)
 
 
-def execute(ctx, plan, stats=None, extra_oracles=None, prop="C20"):
+def execute(ctx, plan, stats=None, extra_oracles=None, prop="C20", names=None):
+    names = names or {"fresh": prop + ".fresh", "snapshot": prop + ".snapshot", "repeat": prop + ".repeat"}
     st = stats if stats is not None else {}
     for k in ("ops", "calls_ok", "calls_raised", "budget_truncated", "fresh_checks", "snapshot_checks", "repeat_checks",
               "new_interpreter_refs"):
@@ -698,7 +699,7 @@ def execute(ctx, plan, stats=None, extra_oracles=None, prop="C20"):
                 else:
                     det["history_msg"] = rep.get("msg")
                     det["fresh_msg"] = refrep.get("msg")
-                raise Violation(prop + ".fresh", op, det)
+                raise Violation(names["fresh"], op, det)
             if rep["kind"] == "budget":
                 st["budget_truncated"] += 1
                 trace.append(rec)
@@ -706,13 +707,13 @@ def execute(ctx, plan, stats=None, extra_oracles=None, prop="C20"):
             # --- snapshot oracle
             st["snapshot_checks"] += 1
             if rep.get("snapshot_changed"):
-                raise Violation(prop + (".snapshot" if prop == "C20" else ".data"), op, {"changed": rep["snapshot_changed"], "outcome": ho.split(":")[0]})
+                raise Violation(names["snapshot"], op, {"changed": rep["snapshot_changed"], "outcome": ho.split(":")[0]})
             # --- repeat oracle
             key = op_key(op)
             if key in seen:
                 st["repeat_checks"] += 1
                 if seen[key] != ho:
-                    raise Violation(prop + ".repeat", op, {"first_time": seen[key], "now": ho})
+                    raise Violation(names["repeat"], op, {"first_time": seen[key], "now": ho})
             seen[key] = ho
             if extra_oracles:
                 more = extra_oracles(op, rep, refrep, fresh, st, plan, now)
